@@ -160,6 +160,10 @@ impl RefBucket {
 struct KeyA {
     limit: Option<(Cfg, i128, u128, i128, i128)>, // cfg, balance, phase, capped slack, maxchunk
     pending_cfg: Option<Option<Cfg>>,
+    /// an (ignored) invalid update is waiting to be picked up by the next poll: the implementation has
+    /// unconsumed watch state, so this must distinguish states (a seeded change that mishandles the ignored
+    /// update was hidden by merging this state with the one without a pending update)
+    pending_invalid: bool,
     obligation: Option<(u128, bool)>, // (deadline - now, woken)
     real_fill: Option<i64>,
     real_sleep: bool,
@@ -211,6 +215,7 @@ fn parse_real(dbg: &str) -> (Option<i64>, bool) {
 }
 
 struct ModelA {
+    pending_invalid: bool,
     limit: Option<(Cfg, RefBucket)>,
     pending_cfg: Option<Option<Cfg>>,
     /// a throttled Pending was returned: the registered wake-up must fire by this instant
@@ -230,7 +235,7 @@ fn exec_a(ctx: &Ctx, sc: &Scenario, ops: &[OpA], slack_cap: i128) -> Result<KeyA
                     Ok(l) => l,
                     Err(e) => return Err(format!("from_watcher rejected a valid initial configuration: {e:?}")),
                 };
-                let mut m = ModelA { limit: sc.initial.map(|c| (c, RefBucket::new(c.burst_bytes(), c.bps as i128, PERIOD_MS as u128, 0))), pending_cfg: None, obligation: None, t: 0 };
+                let mut m = ModelA { limit: sc.initial.map(|c| (c, RefBucket::new(c.burst_bytes(), c.bps as i128, PERIOD_MS as u128, 0))), pending_cfg: None, pending_invalid: false, obligation: None, t: 0 };
                 let wk = Arc::new(CountWaker(AtomicU64::new(0)));
                 let waker = Waker::from(wk.clone());
                 let last = ops.len().saturating_sub(1);
@@ -281,6 +286,12 @@ fn exec_a(ctx: &Ctx, sc: &Scenario, ops: &[OpA], slack_cap: i128) -> Result<KeyA
                             // an invalid update is not a limit: the previous limit stays in effect
                             if cfg.is_none_or(|c| c.valid()) {
                                 m.pending_cfg = Some(cfg);
+                                m.pending_invalid = false;
+                            } else {
+                                // the configuration is a watch value: only the latest update is ever seen, so an
+                                // invalid (ignored) update also supersedes a valid one that no poll has picked up yet
+                                m.pending_cfg = None;
+                                m.pending_invalid = true;
                             }
                             if is_last {
                                 ctx.eval("reconfigure", &format!("{w:?}"));
@@ -288,6 +299,7 @@ fn exec_a(ctx: &Ctx, sc: &Scenario, ops: &[OpA], slack_cap: i128) -> Result<KeyA
                         }
                         OpA::Read { n, inner_ready } => {
                             // a (valid) live change takes effect at this poll: fresh full bucket, epoch now
+                            m.pending_invalid = false;
                             if let Some(cfg) = m.pending_cfg.take() {
                                 m.limit = cfg.map(|c| (c, RefBucket::new(c.burst_bytes(), c.bps as i128, PERIOD_MS as u128, m.t)));
                                 m.obligation = None;
@@ -381,7 +393,7 @@ fn exec_a(ctx: &Ctx, sc: &Scenario, ops: &[OpA], slack_cap: i128) -> Result<KeyA
                     // bound is reachable within the horizon, so larger slacks are merged
                     (*c, b.bal, m.t - b.last, slack.min(slack_cap), b.maxchunk)
                 });
-                Ok(KeyA { limit, pending_cfg: m.pending_cfg, obligation: m.obligation.map(|d| (d.saturating_sub(m.t), wk.0.load(Ordering::SeqCst) > 0)), real_fill, real_sleep })
+                Ok(KeyA { limit, pending_cfg: m.pending_cfg, pending_invalid: m.pending_invalid, obligation: m.obligation.map(|d| (d.saturating_sub(m.t), wk.0.load(Ordering::SeqCst) > 0)), real_fill, real_sleep })
             })
         })
     });
